@@ -11,6 +11,7 @@ import (
 	"math/rand"
 	"os"
 	"path/filepath"
+	"strings"
 	"sync"
 	"time"
 
@@ -143,7 +144,40 @@ func (r *run) backoffs(n int) bool {
 			return false
 		}
 	}
+	// durationFor (write deadlines): floating point in Go, exact rational arithmetic in the model — compared up to the
+	// rounding error of the float computation (relative 2^-40, absolute 1ns)
+	for i := 0; i < n/2; i++ {
+		bw := []int64{1, 1000, 16 << 10, 256 << 10, 1 << 20, 256 << 20, 1 << 34}[r.rng.Intn(7)] + int64(r.rng.Intn(3))
+		size := []int64{0, 1, 100, 4096, 1 << 20, 1 << 30, 1 << 36}[r.rng.Intn(7)] + int64(r.rng.Intn(1000))
+		real := int64(raft.VerifDurationFor(bw, size))
+		r.st.Steps++
+		ans, err := r.d.Ask(map[string]interface{}{"engine": "repl", "what": "durationFor", "bandwidth": bw, "n": size, "id": r.st.Steps})
+		if err != nil {
+			r.fail("driver", fmt.Sprint(err), nil, map[string]interface{}{"req": "durationFor"})
+			return false
+		}
+		r.st.Hist["repl:durationFor"]++
+		ms, _ := harness.Canon(ans["durationFor"]).(string)
+		var model int64
+		fmt.Sscanf(strings.TrimPrefix(ms, "#"), "%d", &model)
+		tol := int64(1) + model>>40
+		r.st.Distinct[fmt.Sprintf("durationFor|bw%d|sz%d", bits(bw), bits(size))] = true
+		if real-model > tol || model-real > tol {
+			r.fail("correspondence", "durationFor differs from the model", "C17",
+				map[string]interface{}{"real": real, "model": map[string]interface{}{"first": ans}, "bandwidth": bw, "n": size, "op": map[string]interface{}{"kind": "repl:durationFor"}})
+			return false
+		}
+	}
 	return true
+}
+
+func bits(x int64) int {
+	n := 0
+	for x > 0 {
+		n++
+		x >>= 1
+	}
+	return n / 8
 }
 
 // checkRequest evaluates C04/C06 directly on the real request against the real leader log.
